@@ -488,7 +488,13 @@ def run_one_path(ex: Exec, repo, c: Contract, mod, node, case, res: FunctionResu
                 ex.oblige(f"raises.{name}", ex.spec_bool(cond, fr_old(ex, fr)), f"raises {name} only if {cond}")
             fr.locals["exc"] = exc
             for k, clause in enumerate(c.post_exc.get(name, [])):
-                ex.oblige(f"post_exc.{name}.{k}", ex.spec_bool(clause, fr), clause)
+                try:
+                    goal = ex.spec_bool(clause, fr)
+                except RaiseSig as rs2:
+                    # the clause itself fails to evaluate on this exception (e.g. exc.token is None): it does not hold
+                    goal = z3.BoolVal(False)
+                    clause = f"{clause}  [evaluating it raised {rs2.exc.cls}; the exception came from: {rs.primitive or 'raise statement'}]"
+                ex.oblige(f"post_exc.{name}.{k}", goal, clause)
 
 
 def fr_old(ex, fr):
